@@ -61,7 +61,7 @@ class CGenerator:
 
     def visit_ArrayRef(self, n: c_ast.ArrayRef) -> str:
         arrref = self._parenthesize_unless_simple(n.name)
-        return arrref + "[" + self.visit(n.subscript) + "]"
+        return arrref + "[" + self._visit_full_expr(n.subscript) + "]"
 
     def visit_StructRef(self, n: c_ast.StructRef) -> str:
         sref = self._parenthesize_unless_simple(n.name)
@@ -81,7 +81,7 @@ class CGenerator:
             case "sizeof":
                 # Always parenthesize the argument of sizeof since it can be
                 # a name.
-                return f"sizeof({self.visit(n.expr)})"
+                return f"sizeof({self._visit_full_expr(n.expr)})"
             case "p++":
                 operand = self._parenthesize_unless_simple(n.expr)
                 return f"{operand}++"
@@ -164,7 +164,7 @@ class CGenerator:
         # An assignment or comma expression on the left side only got there
         # through parentheses; keep them.
         lval_str = self._parenthesize_if(
-            n.lvalue, lambda n: isinstance(n, c_ast.Assignment)
+            n.lvalue, lambda n: isinstance(n, (c_ast.Assignment, c_ast.Compound))
         )
         return f"{lval_str} {n.op} {rval_str}"
 
@@ -180,10 +180,20 @@ class CGenerator:
             case _:
                 return self.visit(n)
 
+    def _visit_full_expr(self, n: c_ast.Node) -> str:
+        # A compound statement in an expression position is a GNU statement
+        # expression, which is written with its own parentheses: ({ ... }).
+        if isinstance(n, c_ast.Compound):
+            return self._visit_expr(n)
+        return self.visit(n)
+
     def _visit_const_expr(self, n: c_ast.Node) -> str:
-        # A constant expression is parsed as a conditional expression: a comma
-        # or assignment expression can only appear there in parentheses.
-        return self._parenthesize_if(n, lambda d: isinstance(d, c_ast.Assignment))
+        # A constant expression is parsed as a conditional expression: a comma,
+        # assignment or statement expression can only appear there in
+        # parentheses.
+        return self._parenthesize_if(
+            n, lambda d: isinstance(d, (c_ast.Assignment, c_ast.Compound))
+        )
 
     def visit_Decl(self, n: c_ast.Decl, no_type: bool = False) -> str:
         # no_type is used when a Decl is part of a DeclList, where the type is
@@ -297,7 +307,7 @@ class CGenerator:
     def visit_Return(self, n: c_ast.Return) -> str:
         s = "return"
         if n.expr:
-            s += " " + self.visit(n.expr)
+            s += " " + self._visit_full_expr(n.expr)
         return s + ";"
 
     def visit_Break(self, n: c_ast.Break) -> str:
@@ -315,7 +325,7 @@ class CGenerator:
     def visit_If(self, n: c_ast.If) -> str:
         s = "if ("
         if n.cond:
-            s += self.visit(n.cond)
+            s += self._visit_full_expr(n.cond)
         s += ")\n"
         s += self._generate_stmt(n.iftrue, add_indent=True)
         if n.iffalse:
@@ -326,13 +336,13 @@ class CGenerator:
     def visit_For(self, n: c_ast.For) -> str:
         s = "for ("
         if n.init:
-            s += self.visit(n.init)
+            s += self._visit_full_expr(n.init)
         s += ";"
         if n.cond:
-            s += " " + self.visit(n.cond)
+            s += " " + self._visit_full_expr(n.cond)
         s += ";"
         if n.next:
-            s += " " + self.visit(n.next)
+            s += " " + self._visit_full_expr(n.next)
         s += ")\n"
         s += self._generate_stmt(n.stmt, add_indent=True)
         return s
@@ -340,7 +350,7 @@ class CGenerator:
     def visit_While(self, n: c_ast.While) -> str:
         s = "while ("
         if n.cond:
-            s += self.visit(n.cond)
+            s += self._visit_full_expr(n.cond)
         s += ")\n"
         s += self._generate_stmt(n.stmt, add_indent=True)
         return s
@@ -350,7 +360,7 @@ class CGenerator:
         s += self._generate_stmt(n.stmt, add_indent=True)
         s += self._make_indent() + "while ("
         if n.cond:
-            s += self.visit(n.cond)
+            s += self._visit_full_expr(n.cond)
         s += ");"
         return s
 
@@ -364,7 +374,7 @@ class CGenerator:
         return s
 
     def visit_Switch(self, n: c_ast.Switch) -> str:
-        s = "switch (" + self.visit(n.cond) + ")\n"
+        s = "switch (" + self._visit_full_expr(n.cond) + ")\n"
         s += self._generate_stmt(n.stmt, add_indent=True)
         return s
 
